@@ -105,8 +105,16 @@ def handlePrintList (lead occ w k items : String) : String :=
     | none => "bad-op"
   | _, _, _, _ => "bad-op"
 
+/-- suffix token: `-` | `*` | `s<digits>` -/
+def parseSfxTok (t : String) : Option Sfx :=
+  match t.toList with
+  | ['-'] => some .none
+  | ['*'] => some .pfx
+  | 's' :: ds => some (.slop ds)
+  | _ => none
+
 mutual
-/-- operand tokens: `w,<hex>` | `p,<hex>` | `fw,<hex>,<hex>` | `fp,<hex>,<hex>` | `n,<k>,Opd` | `g,<lead>,<occ>,<k>,<n>,Opd, n × (<op>,<occ>,<sp1>,<sp2>,Opd)` -/
+/-- operand tokens: `w,<hex>` | `p,<hex>` | `fw,<hex>,<hex>` | `fp,<hex>,<hex>` | `ps,<hex>,<sfx>` | `fps,<hex>,<hex>,<sfx>` (sfx `-`|`*`|`s<digits>`) | `n,<k>,Opd` | `g,<lead>,<occ>,<k>,<n>,Opd, n × (<op>,<occ>,<sp1>,<sp2>,Opd)` -/
 def parseOpdToks : Nat → List String → Option (Opd × List String)
   | 0, _ => none
   | fuel + 1, toks =>
@@ -121,6 +129,14 @@ def parseOpdToks : Nat → List String → Option (Opd × List String)
       match textOfHex hf, textOfHex h with
       | some f, some w => some (fieldPhraseOpd f w, rest)
       | _, _ => none
+    | "ps" :: h :: x :: rest =>
+      match textOfHex h, parseSfxTok x with
+      | some b, some x => some (phraseSfxOpd b x, rest)
+      | _, _ => none
+    | "fps" :: hf :: h :: x :: rest =>
+      match textOfHex hf, textOfHex h, parseSfxTok x with
+      | some f, some b, some x => some (fieldPhraseSfxOpd f b x, rest)
+      | _, _, _ => none
     | "n" :: k :: rest =>
       match k.toNat?, parseOpdToks fuel rest with
       | some k, some (o, rest1) => some (notOpd k o, rest1)
